@@ -12,7 +12,7 @@ productive by the reference least fixed point over (parent, children, shifts).
 from . import search_common as S
 
 ID = "C02"
-QUICK_RUNS = 2400
+QUICK_RUNS = 6000
 CHUNK = 20
 THOROUGH_BUDGET_S = 900
 WATCHDOG = 45.0
